@@ -13,9 +13,9 @@ base/Tree.vos base/Tree.vok base/Tree.required_vos: base/Tree.v
 base/Types.vo base/Types.glob base/Types.v.beautified base/Types.required_vo: base/Types.v 
 base/Types.vio: base/Types.v 
 base/Types.vos base/Types.vok base/Types.required_vos: base/Types.v 
-extract/Api.vo extract/Api.glob extract/Api.v.beautified extract/Api.required_vo: extract/Api.v gen/T_zobrist.vo base/Bits.vo base/Types.vo base/BitBoard.vo geom/Geometry.vo geom/GenFns.vo geom/Lookup.vo model/Score.vo model/Abi.vo model/Text.vo model/Tracing.vo spec/Rules.vo model/Board.vo model/MoveGen.vo model/Apply.vo model/Fen.vo
-extract/Api.vio: extract/Api.v gen/T_zobrist.vio base/Bits.vio base/Types.vio base/BitBoard.vio geom/Geometry.vio geom/GenFns.vio geom/Lookup.vio model/Score.vio model/Abi.vio model/Text.vio model/Tracing.vio spec/Rules.vio model/Board.vio model/MoveGen.vio model/Apply.vio model/Fen.vio
-extract/Api.vos extract/Api.vok extract/Api.required_vos: extract/Api.v gen/T_zobrist.vos base/Bits.vos base/Types.vos base/BitBoard.vos geom/Geometry.vos geom/GenFns.vos geom/Lookup.vos model/Score.vos model/Abi.vos model/Text.vos model/Tracing.vos spec/Rules.vos model/Board.vos model/MoveGen.vos model/Apply.vos model/Fen.vos
+extract/Api.vo extract/Api.glob extract/Api.v.beautified extract/Api.required_vo: extract/Api.v gen/T_zobrist.vo base/Bits.vo base/Types.vo base/BitBoard.vo geom/Geometry.vo geom/GenFns.vo geom/Lookup.vo model/Score.vo model/Abi.vo model/Text.vo model/Tracing.vo spec/Rules.vo model/Board.vo model/MoveGen.vo model/Apply.vo model/Fen.vo model/Search.vo
+extract/Api.vio: extract/Api.v gen/T_zobrist.vio base/Bits.vio base/Types.vio base/BitBoard.vio geom/Geometry.vio geom/GenFns.vio geom/Lookup.vio model/Score.vio model/Abi.vio model/Text.vio model/Tracing.vio spec/Rules.vio model/Board.vio model/MoveGen.vio model/Apply.vio model/Fen.vio model/Search.vio
+extract/Api.vos extract/Api.vok extract/Api.required_vos: extract/Api.v gen/T_zobrist.vos base/Bits.vos base/Types.vos base/BitBoard.vos geom/Geometry.vos geom/GenFns.vos geom/Lookup.vos model/Score.vos model/Abi.vos model/Text.vos model/Tracing.vos spec/Rules.vos model/Board.vos model/MoveGen.vos model/Apply.vos model/Fen.vos model/Search.vos
 extract/Extract.vo extract/Extract.glob extract/Extract.v.beautified extract/Extract.required_vo: extract/Extract.v extract/Api.vo
 extract/Extract.vio: extract/Extract.v extract/Api.vio
 extract/Extract.vos extract/Extract.vok extract/Extract.required_vos: extract/Extract.v extract/Api.vos
@@ -85,6 +85,9 @@ model/MoveGen.vos model/MoveGen.vok model/MoveGen.required_vos: model/MoveGen.v 
 model/Score.vo model/Score.glob model/Score.v.beautified model/Score.required_vo: model/Score.v 
 model/Score.vio: model/Score.v 
 model/Score.vos model/Score.vok model/Score.required_vos: model/Score.v 
+model/Search.vo model/Search.glob model/Search.v.beautified model/Search.required_vo: model/Search.v base/Bits.vo base/Types.vo base/BitBoard.vo geom/Geometry.vo model/Score.vo model/Board.vo model/MoveGen.vo model/Apply.vo
+model/Search.vio: model/Search.v base/Bits.vio base/Types.vio base/BitBoard.vio geom/Geometry.vio model/Score.vio model/Board.vio model/MoveGen.vio model/Apply.vio
+model/Search.vos model/Search.vok model/Search.required_vos: model/Search.v base/Bits.vos base/Types.vos base/BitBoard.vos geom/Geometry.vos model/Score.vos model/Board.vos model/MoveGen.vos model/Apply.vos
 model/Text.vo model/Text.glob model/Text.v.beautified model/Text.required_vo: model/Text.v 
 model/Text.vio: model/Text.v 
 model/Text.vos model/Text.vok model/Text.required_vos: model/Text.v 
@@ -127,6 +130,9 @@ proofs/PawnFacts.vos proofs/PawnFacts.vok proofs/PawnFacts.required_vos: proofs/
 proofs/ScoreOrder.vo proofs/ScoreOrder.glob proofs/ScoreOrder.v.beautified proofs/ScoreOrder.required_vo: proofs/ScoreOrder.v model/Score.vo
 proofs/ScoreOrder.vio: proofs/ScoreOrder.v model/Score.vio
 proofs/ScoreOrder.vos proofs/ScoreOrder.vok proofs/ScoreOrder.required_vos: proofs/ScoreOrder.v model/Score.vos
+proofs/SearchOrder.vo proofs/SearchOrder.glob proofs/SearchOrder.v.beautified proofs/SearchOrder.required_vo: proofs/SearchOrder.v base/Types.vo model/Score.vo proofs/ScoreOrder.vo model/Search.vo
+proofs/SearchOrder.vio: proofs/SearchOrder.v base/Types.vio model/Score.vio proofs/ScoreOrder.vio model/Search.vio
+proofs/SearchOrder.vos proofs/SearchOrder.vok proofs/SearchOrder.required_vos: proofs/SearchOrder.v base/Types.vos model/Score.vos proofs/ScoreOrder.vos model/Search.vos
 proofs/TextFacts.vo proofs/TextFacts.glob proofs/TextFacts.v.beautified proofs/TextFacts.required_vo: proofs/TextFacts.v model/Text.vo
 proofs/TextFacts.vio: proofs/TextFacts.v model/Text.vio
 proofs/TextFacts.vos proofs/TextFacts.vok proofs/TextFacts.required_vos: proofs/TextFacts.v model/Text.vos
@@ -160,6 +166,15 @@ props/C08.vos props/C08.vok props/C08.required_vos: props/C08.v base/Bits.vos ba
 props/C09.vo props/C09.glob props/C09.v.beautified props/C09.required_vo: props/C09.v base/Bits.vo base/Types.vo base/BitBoard.vo geom/Geometry.vo geom/Lookup.vo geom/GenFns.vo proofs/GeomSweeps.vo proofs/PawnFacts.vo
 props/C09.vio: props/C09.v base/Bits.vio base/Types.vio base/BitBoard.vio geom/Geometry.vio geom/Lookup.vio geom/GenFns.vio proofs/GeomSweeps.vio proofs/PawnFacts.vio
 props/C09.vos props/C09.vok props/C09.required_vos: props/C09.v base/Bits.vos base/Types.vos base/BitBoard.vos geom/Geometry.vos geom/Lookup.vos geom/GenFns.vos proofs/GeomSweeps.vos proofs/PawnFacts.vos
+props/C11.vo props/C11.glob props/C11.v.beautified props/C11.required_vo: props/C11.v base/Types.vo model/Score.vo model/Board.vo model/MoveGen.vo model/Search.vo spec/Rules.vo spec/GameTree.vo proofs/GameTreeFacts.vo proofs/SearchOrder.vo
+props/C11.vio: props/C11.v base/Types.vio model/Score.vio model/Board.vio model/MoveGen.vio model/Search.vio spec/Rules.vio spec/GameTree.vio proofs/GameTreeFacts.vio proofs/SearchOrder.vio
+props/C11.vos props/C11.vok props/C11.required_vos: props/C11.v base/Types.vos model/Score.vos model/Board.vos model/MoveGen.vos model/Search.vos spec/Rules.vos spec/GameTree.vos proofs/GameTreeFacts.vos proofs/SearchOrder.vos
+props/C12.vo props/C12.glob props/C12.v.beautified props/C12.required_vo: props/C12.v base/Types.vo model/Score.vo model/Board.vo model/Search.vo spec/Rules.vo spec/GameTree.vo proofs/GameTreeFacts.vo proofs/SearchOrder.vo
+props/C12.vio: props/C12.v base/Types.vio model/Score.vio model/Board.vio model/Search.vio spec/Rules.vio spec/GameTree.vio proofs/GameTreeFacts.vio proofs/SearchOrder.vio
+props/C12.vos props/C12.vok props/C12.required_vos: props/C12.v base/Types.vos model/Score.vos model/Board.vos model/Search.vos spec/Rules.vos spec/GameTree.vos proofs/GameTreeFacts.vos proofs/SearchOrder.vos
+props/C13.vo props/C13.glob props/C13.v.beautified props/C13.required_vo: props/C13.v base/Types.vo model/Score.vo proofs/ScoreOrder.vo spec/GameTree.vo proofs/GameTreeFacts.vo
+props/C13.vio: props/C13.v base/Types.vio model/Score.vio proofs/ScoreOrder.vio spec/GameTree.vio proofs/GameTreeFacts.vio
+props/C13.vos props/C13.vok props/C13.required_vos: props/C13.v base/Types.vos model/Score.vos proofs/ScoreOrder.vos spec/GameTree.vos proofs/GameTreeFacts.vos
 props/C14.vo props/C14.glob props/C14.v.beautified props/C14.required_vo: props/C14.v model/Score.vo proofs/ScoreOrder.vo
 props/C14.vio: props/C14.v model/Score.vio proofs/ScoreOrder.vio
 props/C14.vos props/C14.vok props/C14.required_vos: props/C14.v model/Score.vos proofs/ScoreOrder.vos
